@@ -16,6 +16,8 @@ def fp_value(v, depth=0):
         return ['deep', mask(repr(v))]
     tn = type(v).__name__
     if v is None or isinstance(v, (bool, int, str)):
+        if type(v) not in (bool, int, str, type(None)):
+            v = int(v) if isinstance(v, int) else str.__str__(v)      # instances of user subclasses: plain data in the fingerprint
         return [tn, v if not isinstance(v, int) or abs(v) < 2**53 else str(v)]
     if isinstance(v, float):
         return [tn, repr(v)]
